@@ -103,6 +103,13 @@ static void enumStrings(const string& alpha, size_t maxLen, const std::function<
   rec();
 }
 
+// class of a text for signatures
+static string textClass(const string& s) {
+  string c = s.find("\"\"") != string::npos ? "adjacent-quotes" : s.find('"') != string::npos ? "quote" : "";
+  if (s.find(',') != string::npos) c += c.empty() ? "separator" : "+separator";
+  return c.empty() ? "plain" : c;
+}
+
 // (a2) dumpString of the implementation followed by splitFields
 static string checkDumpString(const string& text, bool log) {
   std::ostringstream os;
@@ -356,8 +363,9 @@ static string stripIndex(const string& attr) {
   return attr;
 }
 
-struct Ctx { bool log = false; bool violated = false; };
-static void report(Ctx* c, const string& sig, const string& detail, const string& rcase) {
+struct Ctx { bool log = false; bool violated = false; string sigSuffix; };
+static void report(Ctx* c, const string& sig0, const string& detail, const string& rcase) {
+  string sig = sig0 + c->sigSuffix;
   c->violated = true;
   if (c->log) printf("VIOLATES %s: %s\n", sig.c_str(), detail.c_str());
   else R.violation(sig, detail, rcase);
@@ -367,6 +375,12 @@ static void report(Ctx* c, const string& sig, const string& detail, const string
 static int runFile(Ctx* c, const FileSpec& f) {
   string text = fileText(f);
   string cs = caseOf(f);
+  {
+    // files whose texts contain two adjacent double quotes get their own signature class
+    bool adj = f.comment.find("\"\"") != string::npos;
+    for (auto& fs : f.fields) if (fs.unit.find("\"\"") != string::npos || fs.comment.find("\"\"") != string::npos) adj = true;
+    c->sigSuffix = adj ? "/text-adjacent-quotes" : "";
+  }
   bool chained = f.id >= 3;
   const char* mcls = chained ? "chained" : "plain";
   Gen g0, g1, g2;
@@ -381,6 +395,17 @@ static int runFile(Ctx* c, const FileSpec& f) {
     for (char& ch : why) if (isdigit((unsigned char)ch)) ch = '#';
     R.count("files_rejected_by_loader");
     R.count("rejected: " + why);
+    // the only rows of this grammar that the documented format does not promise to load: data that does not fit the
+    // explicit chain lengths / the length limit, and a divisor whose sign cannot be combined with the template's
+    bool hasRemainder = false;
+    for (auto& fs : f.fields) if (string(FKINDS[fs.kind].type) == "STR:*") hasRemainder = true;
+    bool lengthClass = why.find("data length") != string::npos && (f.id >= 3 || hasRemainder);
+    bool signClass = why.find("derive field") != string::npos && f.pristine;
+    if (!(lengthClass && g0.result == RESULT_ERR_INVALID_POS) && !signClass) {
+      string w;
+      for (char ch : why.substr(0, why.find(','))) w += isalnum((unsigned char)ch) ? ch : '-';
+      report(c, string("C19/universe-shrunk/") + mcls + "/" + w, "a definition file that is valid by the documented CSV format is not loaded: " + g0.error, cs);
+    }
     return 0;
   }
   R.count("files_loaded");
@@ -630,13 +655,13 @@ int main(int argc, char** argv) {
   }
   // ---- (a2) dumpString -> splitFields over the text domain of the statement (no double quote)
   {
-    enumStrings("a,;' ", th ? 6 : 5, [&](const string& s) {
+    enumStrings("a,;' \"", th ? 6 : 5, [&](const string& s) {
       if (!s.empty() && (s.front() == ' ' || s.back() == ' ')) return;   // leading/trailing blanks are outside the statement
       if (!mine()) return;
       R.evaluations++;
       R.distinct(vp::fnv("ds" + s));
       string r = checkDumpString(s, false);
-      if (!r.empty()) R.violation("C19/dumpstring/" + r + "/" + (s.find(',') != string::npos ? "separator" : "plain"), "text " + vis(s) + " written by dumpString is not split back", "k=dumpstr;t=" + hexs(s));
+      if (!r.empty()) R.violation("C19/dumpstring/" + r + "/" + textClass(s), "text " + vis(s) + " written by dumpString is not split back", "k=dumpstr;t=" + hexs(s));
     });
     R.sample("(a2) dumpString(\"it's, a;b\") embedded as middle field -> splitFields");
   }
@@ -683,7 +708,7 @@ int main(int argc, char** argv) {
   // sweep 2: texts. message comment x unit x field comment over all strings of the text alphabet
   {
     vector<string> texts;
-    enumStrings("a,;' ", th ? 3 : 2, [&](const string& s) {
+    enumStrings("a,;' \"", th ? 3 : 2, [&](const string& s) {
       if (!s.empty() && (s.front() == ' ' || s.back() == ' ')) return;
       texts.push_back(s);
     });
